@@ -343,7 +343,7 @@ def check_pins(pid):
     that disappeared, a changed statement, a changed definition the statement is written with, an unpinned theorem."""
     from . import pins
     try:
-        return pins.verify(pid)
+        return pins.verify(pid) + pins.verify_runners(pid)
     except Exception as ex:     # the pin machinery itself failing is a broken check, not a pass
         return [('lib/pins.py', 'pin verification crashed: %r' % ex)]
 
